@@ -79,6 +79,16 @@ theorem epTarget_facts : ∀ (c : Color) (q : Sq), q.rank = c.pawnRank + 2 * c.f
 moved (part of `Valid`). -/
 def EpRankOK (p : Pos) : Prop := ∀ q, p.ep = some q → q.rank = p.stm.other.pawnRank + 2 * p.stm.other.fwd
 
+/-- a valid position satisfies it (clause of `epValid`) -/
+theorem epRankOK_of_valid (p : Pos) (hv : Valid p = true) : EpRankOK p := by
+  intro q hq
+  simp only [Valid, Bool.and_eq_true] at hv
+  have he := hv.2
+  unfold epValid at he
+  rw [hq] at he
+  simp only [Bool.and_eq_true, beq_iff_eq] at he
+  exact he.1.2
+
 theorem epStd_eq (p : Pos) (h : EpRankOK p) : epStd p = epField p.toBuilder.epShown := by
   unfold epStd epTarget Builder.epShown Builder.getEnPassant Pos.toBuilder
   cases hq : p.ep with
